@@ -55,7 +55,7 @@ def op_case(fam, doc: Node, op, a, c, sl: Slice | None, node: Node | None):
 
 def generate(rng: random.Random, tier: str):
     quick = tier == "quick"
-    for fam in gen.FAMILY:
+    for fam in gen.FAMILY + gen.EXTRA_FAMILY:
         g, docs = S.family_docs(rng, fam, 10 if quick else 150)
         sc = gen.family(fam)
         for doc in docs:
